@@ -64,6 +64,9 @@ type Sched struct {
 	OnStep func(w *Worker) string
 	// DetectBlocking enables wait-state sampling (needed when workers can block on real locks).
 	DetectBlocking bool
+	// ChanWaitIsLock: the code under test uses channels as locks (the lock map), so a persistent
+	// channel / select wait counts as a lock wait for deadlock detection.
+	ChanWaitIsLock bool
 	// Trace of granted (worker, point) pairs.
 	Trace     []string
 	KeepTrace bool
@@ -150,6 +153,15 @@ func waitStates() map[int64]string {
 	return out
 }
 
+// isLockWait: waiting for a mutex (not a channel / select, which the storage engine uses internally).
+func isLockWait(st string) bool {
+	switch st {
+	case "sync.Mutex.Lock", "sync.RWMutex.Lock", "sync.RWMutex.RLock", "semacquire", "sync.Cond.Wait":
+		return true
+	}
+	return false
+}
+
 func isBlockedState(st string) bool {
 	switch st {
 	case "sync.Mutex.Lock", "sync.RWMutex.Lock", "sync.RWMutex.RLock", "semacquire", "chan receive", "chan send", "select", "sync.Cond.Wait", "sync.WaitGroup.Wait":
@@ -225,20 +237,49 @@ func (s *Sched) Run(ch Chooser) (string, error) {
 				}
 			}
 			if anyBlocked {
-				select {
-				case w := <-s.ev:
-					s.arrived(w)
-					if msg := s.step(w); msg != "" {
-						return msg, nil
+				// A worker flagged as blocked may simply be slow (loaded machine, a wait inside the storage
+				// engine). Only a lock wait that persists over several samples is a deadlock; anything else
+				// that lasts too long is a harness problem (exit 2), never a finding.
+				progressed := false
+				lockWaits := 0
+				for slice := 0; slice < 30 && !progressed; slice++ {
+					select {
+					case w := <-s.ev:
+						s.arrived(w)
+						if msg := s.step(w); msg != "" {
+							return msg, nil
+						}
+						progressed = true
+					case <-time.After(1 * time.Second):
+						states := waitStates()
+						all := true
+						for _, w := range s.workers {
+							if !w.done && !(isLockWait(states[w.goid]) || (s.ChanWaitIsLock && isBlockedState(states[w.goid]))) {
+								all = false
+							}
+						}
+						if all {
+							lockWaits++
+						} else {
+							lockWaits = 0
+						}
 					}
+					if lockWaits >= 5 {
+						break
+					}
+				}
+				if progressed {
 					continue
-				case <-time.After(2 * time.Second):
+				}
+				if lockWaits < 5 {
+					return "", fmt.Errorf("workers neither yield nor sit in a lock wait for 30s")
 				}
 			}
 			var sb strings.Builder
+			states := waitStates()
 			for _, w := range s.workers {
 				if !w.done {
-					fmt.Fprintf(&sb, " %s@%s(blocked=%v)", w.Name, w.point, w.blocked)
+					fmt.Fprintf(&sb, " %s@%s(blocked=%v, state=%s)", w.Name, w.point, w.blocked, states[w.goid])
 				}
 			}
 			return "", &DeadlockError{Msg: "no worker can make progress:" + sb.String()}
